@@ -45,7 +45,8 @@ EPS = 2.0 ** -52
 # ------------------------------------------------------------------ helpers
 
 def _np(t):
-    return t.detach().cpu().numpy()
+    # always a private copy: dense pieces may be views of parameter storage (e.g. ConstantMean under no_grad)
+    return t.detach().cpu().numpy().copy()
 
 
 def _absmax(a):
@@ -132,10 +133,18 @@ def build_case(ctx, kind, idx, kw, thorough=False):
         if kind == "single":
             n_max = 12 if not thorough else 16
             model, lik, tx, ty, desc = G.build_exact_gp(rng, n_max=n_max, **kw)
-            test_x = G.random_test_x(rng, desc)
+            mode = ("random", "same-n", "random", "train-inputs")[idx % 4]
         else:
             model, lik, tx, ty, desc = G.build_multitask_gp(rng, n_max=5 if not thorough else 6)
-            test_x = G.random_test_x(rng, desc, s_max=3)
+            mode = ("random", "same-n", "random")[idx % 3]
+        # n* != n (rectangular cross-covariance) / n* == n with x* != x / x* == the training inputs
+        if mode == "random":
+            test_x = G.random_test_x(rng, desc, s_max=6 if kind == "single" else 3)
+        elif mode == "same-n":
+            test_x = G.random_test_x(rng, desc, s=desc["n"])
+        else:
+            test_x = tx.clone() if desc["batch"] != "broadcast" else tx.expand(desc["b"], *tx.shape).clone()
+    desc["xstar"] = mode
     s = test_x.shape[-2]
     desc["s"] = s
     test_noise = None
@@ -154,6 +163,10 @@ def dense_pieces(model, lik, tx, ty, desc, test_x, test_noise):
     Strain = G.spec_noise(lik, desc, n, train=True)
     Stest = G.spec_noise(lik, desc, s, call_noise=test_noise, train=False)
     yflat = ty.reshape(*ty.shape[:ty.dim() - (2 if t > 1 else 1)], N)
+    try:
+        dK = G.kernel_eval_delta(model, tx, test_x, J, N)
+    except Exception:
+        dK = torch.zeros(J.shape[:-2], dtype=torch.float64)
     B = torch.broadcast_shapes(B, Strain.shape[:-2], yflat.shape[:-1],
                                Stest.shape[:-2] if Stest is not None else ())
     nb = 1
@@ -162,7 +175,8 @@ def dense_pieces(model, lik, tx, ty, desc, test_x, test_noise):
     ex = lambda a, tail: a.expand(*B, *a.shape[-tail:]).reshape(nb, *a.shape[-tail:])
     out = {"B": tuple(B), "nb": nb, "N": N, "S": Sx,
            "J": _np(ex(J, 2)), "mj": _np(ex(mj, 1)), "Strain": _np(ex(Strain, 2)), "y": _np(ex(yflat, 1)),
-           "Stest": _np(ex(Stest, 2)) if Stest is not None else None}
+           "Stest": _np(ex(Stest, 2)) if Stest is not None else None,
+           "dK": _np(dK.expand(*B).reshape(nb)) if B else _np(dK.reshape(1))}
     return out
 
 
@@ -176,10 +190,11 @@ def post_line(P, b):
 
 # ------------------------------------------------------------------ real side
 
-def run_cell(model, lik, desc, test_x, test_noise, cell, P, skip_noisy=False):
+def run_cell(model, lik, desc, test_x, test_noise, cell, P, skip_noisy=False, reset=True):
     """Run the real code under one settings cell; returns observed arrays flattened over the batch."""
     import torch
-    G.reset_caches(model)
+    if reset:
+        G.reset_caches(model)
     N, Sx, nb = P["N"], P["S"], P["nb"]
     obs = {}
     want_solve = cell["cg"] and not cell["fast"] and not cell["skip"]
@@ -237,6 +252,118 @@ def run_cell(model, lik, desc, test_x, test_noise, cell, P, skip_noisy=False):
     return obs
 
 
+# ------------------------------------------------------------------ data / parameter updates on one model object
+
+OPS = ("targets", "inputs+targets", "resize", "hypers")
+
+
+def apply_history(ctx, model, lik, tx, ty, desc, test_x, cell, op, kind, idx):
+    """predict (under `cell`) -> update -> (the caller predicts again WITHOUT resetting anything).
+    Returns the current (train_x, train_y, desc) after the update.
+      targets         set_train_data(targets=new_y)                      (same inputs, same shape)
+      inputs+targets  set_train_data(new_x, new_y)                       (same n)
+      resize          set_train_data(new_x, new_y, strict=False), n' != n (FixedNoise: noise vector replaced too)
+      hypers          train(); every raw parameter moved (as an optimizer step would); eval()
+    """
+    import torch
+    rng = ctx.rng(f"hist:{kind}:{idx}:{op}")
+    G.reset_caches(model)
+    with warnings.catch_warnings(), G.enter_cell(cell):
+        warnings.simplefilter("ignore")
+        p = model(test_x)
+        p.mean, p.covariance_matrix, p.variance  # fill every cache the cell uses
+    desc = dict(desc)
+    n, t = desc["n"], desc["tasks"]
+    if op == "targets":
+        ty = G._rand_tensor(rng, tuple(ty.shape), -1.5, 1.5)
+        model.set_train_data(targets=ty)
+    elif op == "inputs+targets":
+        tx = G._rand_tensor(rng, tuple(tx.shape), -1.5, 1.5)
+        ty = G._rand_tensor(rng, tuple(ty.shape), -1.5, 1.5)
+        model.set_train_data(tx, ty)
+    elif op == "resize":
+        cands = [k for k in (n + 1, n - 1, n + 2) if k >= 1 and not (desc["batch"] == "model" and k == desc["b"])]
+        n2 = rng.choice(cands[:2])
+        xs, ys = list(tx.shape), list(ty.shape)
+        xs[-2] = n2
+        ys[-2 if t > 1 else -1] = n2
+        tx = G._rand_tensor(rng, tuple(xs), -1.5, 1.5)
+        ty = G._rand_tensor(rng, tuple(ys), -1.5, 1.5)
+        if desc["lik"].startswith("fixed"):
+            old = lik.noise_covar.noise
+            lik.noise_covar.noise = G._rand_tensor(rng, (*old.shape[:-1], n2), 0.05, 0.6)
+        model.set_train_data(tx, ty, strict=False)
+        desc["n"] = n2
+    elif op == "hypers":
+        model.train()
+        lik.train()
+        with torch.no_grad():
+            for prm in model.parameters():
+                prm.add_(G._rand_tensor(rng, tuple(prm.shape), -0.3, 0.3))
+        model.eval()
+        lik.eval()
+    else:
+        raise ValueError(op)
+    return tx, ty, desc
+
+
+# ------------------------------------------------------------------ CG tolerance cells (eval_cg_tolerance must be in force)
+
+TOL_VARIANTS = {"A": (1e-10, 1e-10), "B": (None, 1e-10), "C": (1e-10, None), "D": (0.01, 0.01)}
+TOL_PAIRS = (("B", "A", "only eval_cg_tolerance tightened (cg_tolerance at its default) must act like both tightened"),
+             ("C", "D", "only cg_tolerance tightened (eval_cg_tolerance at its default 0.01) must act like cg=eval=0.01"))
+
+
+def tolerance_case(ctx, idx, only_cell=None):
+    """Larger, slowly converging systems on which the CG tolerance matters.  gpytorch promises that every solve of
+    an eval-mode prediction runs at `eval_cg_tolerance` (ExactGP.__call__ wraps exact_prediction in
+    `cg_tolerance(eval_cg_tolerance.value())`).  So the outputs under (cg_tolerance=a, eval_cg_tolerance=b) must be
+    those under (b, b) for every a — per quantity (mean solve, covariance solve)."""
+    import numpy as np
+    rng = ctx.rng(f"tolcase:{idx}")
+    kk = ("matern0.5", "rbf", "matern1.5", "sum", "scale(rbf)", "rq")[idx % 6]
+    with warnings.catch_warnings():
+        warnings.simplefilter("ignore")
+        model, lik, tx, ty, desc = G.build_exact_gp(rng, n=rng.randint(18, 36), d=2, kernel_kind=kk,
+                                                    mean_kind=rng.choice(G.MEAN_KINDS), lik_kind="gaussian",
+                                                    batch_kind=rng.choice(["none", "none", "broadcast"]), b=2)
+        lik.noise = G._u(rng, 0.01, 0.03)
+        test_x = G.random_test_x(rng, desc, s=rng.randint(2, 5))
+    desc["s"] = test_x.shape[-2]
+    cell = only_cell or {"lazy": rng.random() < 0.5, "eager": rng.choice([0, 512]), "cg": True,
+                         "fast": False, "detach": rng.random() < 0.5, "skip": False,   # Lanczos roots are not CG solves
+                         "max_cg_iterations": 200}
+    P = dense_pieces(model, lik, tx, ty, desc, test_x, None)
+    obs = {}
+    for name, tols in TOL_VARIANTS.items():
+        c = dict(cell, tols=tols)
+        obs[name] = run_cell(model, lik, desc, test_x, None, c, P, skip_noisy=True)
+    where = f"{desc['kernel']} n={desc['n']} s={desc['s']} batch={desc['batch']} cell={G.cell_name(cell)}"
+    sens = max(_absmax(obs["A"]["mean"] - obs["D"]["mean"]), _absmax(obs["A"]["cov"] - obs["D"]["cov"]))
+    ctx.count("tolerance-cells")
+    if sens > 1e-6:
+        ctx.count("tolerance-cells:tolerance-matters")
+    for got, ref, what in TOL_PAIRS:
+        ctx.case(f"tol|{idx}|{G.cell_name(cell)}|{got}", nontrivial=sens > 1e-6,
+                 sample={"model": _slim(desc), "cell": G.cell_name(cell), "variant": TOL_VARIANTS[got],
+                         "reference": TOL_VARIANTS[ref], "sensitivity(tight vs 0.01)": sens})
+        for q, label in (("mean_cache", "mean solve (mean_cache)"), ("mean", "posterior mean"),
+                         ("cov", "posterior covariance"), ("var", "posterior variance")):
+            a, b_ = obs[got].get(q), obs[ref].get(q)
+            if a is None or b_ is None:
+                continue
+            ctx.count("comparisons")
+            err = _absmax(np.asarray(a) - np.asarray(b_))
+            tol = 1e-9 * (_absmax(b_) + 1e-300) + 1e-13
+            if err > tol:
+                ctx.fail(f"cg-tolerance:{q}:eval_cg_tolerance-not-in-force",
+                         f"{label} under (cg_tolerance, eval_cg_tolerance)={TOL_VARIANTS[got]} differs from "
+                         f"{TOL_VARIANTS[ref]} by {err:.3e} (tol {tol:.1e}): {what} — the solve did not run at "
+                         f"eval_cg_tolerance; on {where}",
+                         {"tolcell": True, "idx": idx, "cell": cell, "variant": got, "reference": ref,
+                          "observable": q, "err": err, "desc": _slim(desc)})
+
+
 # ------------------------------------------------------------------ comparison
 
 class Rec:
@@ -259,6 +386,13 @@ class Rec:
         self.sc_cov = _absmax(self.Ktt) + _absmax(np.abs(self.Kts) @ np.abs(self.Ainv) @ np.abs(self.Kts).T)
         self.sc_alpha = _absmax(self.alpha) + 1e-300
         self.St = P["Stest"][b] if P["Stest"] is not None else None
+        # path-dependence of the model's own kernel evaluation (see _gpmodels.kernel_eval_delta), with margin
+        self.dK = 4.0 * float(P["dK"][b])
+        self.W = _norm_inf(np.abs(self.Kts) @ np.abs(self.Ainv))
+        self.a1 = float(np.sum(np.abs(self.alpha)))
+        self.tol_mean = self.rel * self.sc_mean + self.dK * (1 + self.W) * (1 + self.a1) + 1e-12
+        self.tol_cov = self.rel * self.sc_cov + self.dK * (1 + self.W) ** 2 + 1e-12
+        self.tol_alpha = self.rel * self.sc_alpha + self.dK * _norm_inf(self.Ainv) * self.a1 + 1e-12
 
 
 def _path(cell):
@@ -271,7 +405,7 @@ def correspondence(ctx, extra=False):
     import torch
     torch.set_num_threads(2)
     thorough = ctx.tier == "thorough" or extra
-    n_single, n_multi, ncell = (60, 12, 10) if not thorough else (280, 40, 64)
+    n_single, n_multi, ncell = (60, 12, 10) if not thorough else (240, 36, 64)
     workers = 4 if not thorough else 10
     if os.environ.get("VERIF_C01_CASES"):
         n_single, n_multi = [int(v) for v in os.environ["VERIF_C01_CASES"].split(",")]
@@ -307,6 +441,35 @@ def correspondence(ctx, extra=False):
         post_lines += lines
         cases.append({"kind": kind, "idx": idx, "kw": kw, "desc": desc, "P": P, "runs": runs, "lines": lines})
         ctx.count("models")
+        # ---- two-step cells on the same object: predict -> update data / parameters -> predict; the second
+        #      prediction must be the conditional of the CURRENT data and parameters
+        ops = list(OPS) if thorough else [OPS[(idx + (0 if kind == "single" else 1)) % len(OPS)]]
+        done = []
+        for op in ops:
+            for cell in (G.covering_cells(crng, 2 if thorough else 1)):
+                done.append({"op": op, "cell": cell})
+                try:
+                    tx, ty, desc = apply_history(ctx, model, lik, tx, ty, desc, test_x, cell, op, kind, f"{idx}:{len(done)}")
+                    P2 = dense_pieces(model, lik, tx, ty, desc, test_x, test_noise)
+                    obs2 = run_cell(model, lik, desc, test_x, test_noise, cell, P2, skip_noisy, reset=False)
+                except Exception as e:
+                    ctx.fail(f"exception:history:{op}:{type(e).__name__}",
+                             f"predict -> {op} -> predict raised {type(e).__name__}: {str(e)[:200]} on {desc['kernel']} "
+                             f"lik={desc['lik']} batch={desc['batch']} {G.cell_name(cell)}",
+                             {"kind": kind, "idx": idx, "kw": kw, "cell": cell, "history": list(done), "desc": _slim(desc)})
+                    break
+                lines2 = [post_line(P2, b) for b in range(P2["nb"])]
+                post_lines += lines2
+                cases.append({"kind": kind, "idx": idx, "kw": kw, "desc": desc, "P": P2, "runs": [(cell, obs2)],
+                              "lines": lines2, "history": list(done)})
+                ctx.count("history-cells:" + op)
+    # ---- CG tolerance cells
+    for i in range(4 if not thorough else 24):
+        try:
+            tolerance_case(ctx, i)
+        except Exception as e:
+            ctx.fail(f"exception:tolerance-cell:{type(e).__name__}", f"tolerance cell {i} raised {type(e).__name__}: {str(e)[:200]}",
+                     {"tolcell": True, "idx": i})
     ctx.notes["phase1_s"] = round(T(), 1)
     # ---- phase 2: exact values from the Lean model
     replies = _lines_parallel("C01", post_lines, workers)
@@ -322,6 +485,7 @@ def correspondence(ctx, extra=False):
                 ctx.count("discarded_singular")
                 continue
             R = Rec(P, b, mats)
+            ctx.notes["max_kernel_eval_delta"] = max(ctx.notes.get("max_kernel_eval_delta", 0.0), float(P["dK"][b]))
             if not (R.kappa <= 1e6):
                 ctx.count("discarded_cond>1e6")
                 continue
@@ -352,17 +516,21 @@ def _compare(ctx, cs, b, R, cell, obs, pending):
     N, Sx = P["N"], P["S"]
     path = _path(cell)
     cname = G.cell_name(cell)
-    nontrivial = N >= 2 and Sx != N
-    ctx.case(f"{desc['kernel']}|{desc['mean']}|{desc['lik']}|{desc['batch']}|n={N}|s={Sx}|{cs['kind']}{cs['idx']}|{cname}",
+    nontrivial = N >= 2
+    hist = cs.get("history")
+    hname = "" if not hist else "|after:" + ">".join(h["op"] for h in hist)
+    ctx.case(f"{desc['kernel']}|{desc['mean']}|{desc['lik']}|{desc['batch']}|n={N}|s={Sx}|{cs['kind']}{cs['idx']}|{cname}{hname}",
              nontrivial=nontrivial,
              sample={"model": _slim(desc), "cell": cname, "batch_element": b, "kappa": R.kappa,
                      "posterior_mean[0]": float(R.mean[0]), "posterior_var[0]": float(R.cov[0, 0])})
     iterative = cell["cg"]
     where = (f"{desc['kernel']} mean={desc['mean']} lik={desc['lik']} batch={desc['batch']} n={N} s={Sx} "
-             f"cell={cname}")
+             f"x*={desc.get('xstar')} cell={cname}" + (f" history=predict>{hist[-1]['op']}>predict" if hist else ""))
 
     def replay(extra):
         d = {"kind": cs["kind"], "idx": cs["idx"], "kw": cs["kw"], "cell": cell, "batch_element": b, "desc": _slim(desc)}
+        if hist:
+            d["history"] = hist
         d.update(extra)
         line = cs["lines"][b]
         if len(line) < 30000:
@@ -384,7 +552,8 @@ def _compare(ctx, cs, b, R, cell, obs, pending):
                                f"{err:.2e} of {key} on {where} attributed to the primitive (downstream algebra "
                                f"checked exactly from its observed output)")
             return True
-        ctx.fail(key, f"{what}: |impl - exact| = {err:.3e} > tol {tol:.2e} on {where}",
+        ctx.fail(key + (f":after-{hist[-1]['op']}" if hist else ""),
+                 f"{what}: |impl - exact| = {err:.3e} > tol {tol:.2e} on {where}",
                  replay({"observable": key, "err": err, "tol": tol, "got": np.asarray(got).tolist(),
                          "expected": np.asarray(exp).tolist()}))
         return False
@@ -404,25 +573,25 @@ def _compare(ctx, cs, b, R, cell, obs, pending):
         if iterative:
             prim_mean = ("CG solve (mean_cache)", rho)
         check(f"mean_cache:{path}", "prediction_strategy.mean_cache vs (Kxx+S)^-1 (y-mx)", mc[b], R.alpha,
-              R.rel * R.sc_alpha + 1e-12, prim_mean)
+              R.tol_alpha, prim_mean)
         # gpytorch's algebra given the observed cache: exact predMean(mt, Kts, mean_cache)
         line = " ".join(["given", str(N), str(Sx), C.vec_tokens(R.mt), C.mat_tokens(R.Kts), C.vec_tokens(mc[b])])
         sc = _absmax(R.mt) + _absmax(np.abs(R.Kts) @ np.abs(mc[b]))
-        got = obs["mean"][b]
-        pending.append((line, lambda m, got=got, sc=sc: check(
+        got, mcb = obs["mean"][b], mc[b]
+        pending.append((line, lambda m, got=got, sc=sc, mcb=mcb: check(
             f"posterior-mean|given-cache:{path}", "model(x*).mean vs exact predMean(mt, K*x, observed mean_cache)",
-            got, m[0][:, 0], R.rel_round * sc + 1e-13)))
+            got, m[0][:, 0], R.rel_round * sc + R.dK * (1 + float(np.sum(np.abs(mcb)))) + 1e-13)))
     elif iterative:
         ctx.count("unobserved:mean_cache")
         prim_mean = ("CG solve (mean_cache, unobserved)", float("nan"))
-    check(f"posterior-mean:{path}", "model(x*).mean", obs["mean"][b], R.mean, R.rel * R.sc_mean + 1e-12, prim_mean)
+    check(f"posterior-mean:{path}", "model(x*).mean", obs["mean"][b], R.mean, R.tol_mean, prim_mean)
     # ---- covariance
     prim_cov = None
     if cell["skip"]:
         check("posterior-covar:skip", "skip_posterior_variances: covariance must be the zero operator",
               obs["cov"][b], np.zeros((Sx, Sx)), 0.0)
     else:
-        tol_cov = R.rel * R.sc_cov + 1e-12
+        tol_cov = R.tol_cov
         kind = "fast" if cell["fast"] else "exact"
         if cell["fast"]:
             Rc = obs["covar_cache"][b] if obs.get("covar_cache") is not None else None
@@ -434,16 +603,16 @@ def _compare(ctx, cs, b, R, cell, obs, pending):
                 if iterative:
                     prim_cov = ("Lanczos root_inv_decomposition (covar_cache)", gram_err)
                 check(f"covar_cache:{path}", "covar_cache covar_cache^T vs (Kxx+S)^-1", Rc @ Rc.T, R.Ainv,
-                      R.rel * _absmax(R.Ainv) + 1e-12, prim_cov)
+                      R.rel * _absmax(R.Ainv) + R.dK * _norm_inf(R.Ainv) ** 2 + 1e-12, prim_cov)
                 line = " ".join(["root", str(N), str(Sx), str(Rc.shape[1]), C.mat_tokens(R.Ktt), C.mat_tokens(R.Kts),
                                  C.mat_tokens(Rc)])
                 aq = np.abs(R.Kts) @ np.abs(Rc)
                 sc = _absmax(R.Ktt) + _absmax(aq @ aq.T)
                 got = obs["cov"][b]
-                pending.append((line, lambda m, got=got, sc=sc: check(
+                pending.append((line, lambda m, got=got, sc=sc, aq=aq, Rc=Rc: check(
                     f"posterior-covar|given-cache:fast:{path}",
                     "covariance vs exact predCovarRoot(K**, K*x, observed covar_cache)", got, m[0],
-                    R.rel_round * sc + 1e-13)))
+                    R.rel_round * sc + R.dK * (1 + 2 * _norm_inf(aq @ np.abs(Rc).T)) + 1e-13)))
             elif iterative:
                 ctx.count("unobserved:covar_cache")
                 prim_cov = ("Lanczos root (unobserved)", float("nan"))
@@ -456,17 +625,17 @@ def _compare(ctx, cs, b, R, cell, obs, pending):
                 line = " ".join(["solve", str(N), str(Sx), C.mat_tokens(R.Ktt), C.mat_tokens(R.Kts), C.mat_tokens(Xb)])
                 sc = _absmax(R.Ktt) + _absmax(np.abs(R.Kts) @ np.abs(Xb))
                 got = obs["cov"][b]
-                pending.append((line, lambda m, got=got, sc=sc: check(
+                pending.append((line, lambda m, got=got, sc=sc, Xb=Xb: check(
                     f"posterior-covar|given-solve:exact:{path}",
                     "covariance vs exact predCovarOfSolve(K**, K*x, observed solve)", got, m[0],
-                    R.rel_round * sc + 1e-13)))
+                    R.rel_round * sc + R.dK * (1 + float(np.max(np.sum(np.abs(Xb), axis=0)))) + 1e-13)))
             else:
                 ctx.count("unobserved:cg_solve")
                 prim_cov = ("CG solve (unobserved)", float("nan"))
         check(f"posterior-covar:{kind}:{path}", "model(x*).covariance_matrix", obs["cov"][b], R.cov, tol_cov, prim_cov)
         check(f"posterior-variance:{kind}:{path}", "model(x*).variance", obs["var"][b], np.diag(R.cov), tol_cov, prim_cov)
         check(f"posterior-variance-vs-diag:{kind}:{path}", "model(x*).variance vs diag(model(x*).covariance_matrix)",
-              obs["var"][b], np.diag(obs["cov"][b]), 64 * EPS * R.sc_cov + 1e-13)
+              obs["var"][b], np.diag(obs["cov"][b]), 64 * EPS * R.sc_cov + R.dK * (1 + R.W) ** 2 + 1e-13)
         check(f"posterior-covar-symmetry:{kind}:{path}", "covariance symmetric", obs["cov"][b], obs["cov"][b].T,
               tol_cov, prim_cov)
     # ---- likelihood: adds exactly the observation noise, once, and leaves the mean alone
@@ -478,7 +647,7 @@ def _compare(ctx, cs, b, R, cell, obs, pending):
         check(f"marginal-mean:{lk}", "likelihood(model(x*)).mean vs model(x*).mean", obs["nmean"][b], obs["mean"][b], 0.0)
         if not cell["skip"]:
             check(f"noisy-covar:{kind}:{path}", "likelihood(model(x*)).covariance_matrix vs K** + S* - K*x A^-1 Kx*",
-                  obs["ncov"][b], R.ncov, R.rel * (R.sc_cov + _absmax(R.St)) + 1e-12, prim_cov)
+                  obs["ncov"][b], R.ncov, R.tol_cov + R.rel * _absmax(R.St), prim_cov)
 
 
 # ------------------------------------------------------------------ search / replay
@@ -495,18 +664,27 @@ def replay(ctx, payload):
     torch.set_num_threads(2)
     case = payload.get("case", payload)
     os.environ["VERIF_SEED"] = str(payload.get("seed", C.seed()))
+    if case.get("tolcell"):
+        tolerance_case(ctx, case["idx"], case.get("cell"))
+        for f in ctx.failures[:5]:
+            print("replay:", f["key"], f["what"][:300])
+        return not ctx.failures
     kind, idx, kw, cell = case["kind"], case["idx"], case.get("kw", {}), case["cell"]
     model, lik, tx, ty, desc, test_x, test_noise = build_case(ctx, kind, idx, kw, payload.get("tier") == "thorough")
-    P = dense_pieces(model, lik, tx, ty, desc, test_x, test_noise)
     c12 = _c12_calltime_noise_defect()
-    lines = [post_line(P, b) for b in range(P["nb"])]
-    replies = _lines_parallel("C01", lines)
+    skip_noisy = c12 and desc["lik"] == "fixed+learned"
+    hist = case.get("history") or []
     try:
-        obs = run_cell(model, lik, desc, test_x, test_noise, cell, P, c12 and desc["lik"] == "fixed+learned")
+        for k, h in enumerate(hist):
+            tx, ty, desc = apply_history(ctx, model, lik, tx, ty, desc, test_x, h["cell"], h["op"], kind, f"{idx}:{k + 1}")
+        P = dense_pieces(model, lik, tx, ty, desc, test_x, test_noise)
+        obs = run_cell(model, lik, desc, test_x, test_noise, cell, P, skip_noisy, reset=not hist)
     except Exception as e:
         print("replay: real code raised", type(e).__name__, e)
         return False
-    cs = {"kind": kind, "idx": idx, "kw": kw, "desc": desc, "P": P, "lines": lines}
+    lines = [post_line(P, b) for b in range(P["nb"])]
+    replies = _lines_parallel("C01", lines)
+    cs = {"kind": kind, "idx": idx, "kw": kw, "desc": desc, "P": P, "lines": lines, "history": hist or None}
     pending = []
     for b in range(P["nb"]):
         mats = _parse_reply(replies[lines[b]])
